@@ -271,7 +271,15 @@ class GdbMode(Stage):
     def gen(self, d, tier):
         specs = histgen.history(d, nconn=d.int(1, 2), nmsg=d.int(4, 30), profile=PROFILE, tagged=True)
         g = rm.Gen(d, rm.vocab(specs), 1)
-        return dict(specs=specs, filter=scripts.gen_matcher_text(d, g) if d.chance(0.5) else None, threads=[d.choice([1, 1, 2, 3]) for _ in range(d.int(1, 6))])
+        flt = scripts.gen_matcher_text(d, g) if d.chance(0.5) else None
+        V = rm.vocab(specs)
+        import re as _re
+        strs = [x for x in (V.get('str') or []) if _re.fullmatch(r'[A-Za-z0-9_. \-]+', x)]      # (string atoms without quotes/brackets/parentheses/commas/!: C05's stated grammar)
+        via = d.choice([None, None, 'wl filter', 'wlfilter', 'wayland filter', 'wl f', 'wlfilter', 'w filter'])
+        if strs and d.chance(0.7 if via == 'wlfilter' else 0.2):
+            flt = d.choice(['.("%s")', '("%s")', 'wl_registry.global("%s")', '(interface="%s")']) % d.choice(strs)      # a quoted string argument
+        # the filter comes from the command line (-f) or is typed mid-stream as a gdb command, in any of its spellings
+        return dict(specs=specs, filter=flt, threads=[d.choice([1, 1, 2, 3]) for _ in range(d.int(1, 6))], via=via, at=d.int(0, max(0, len(specs) // 2)))
 
     def execute(self, case):
         from .. import gdbsim
@@ -279,11 +287,18 @@ class GdbMode(Stage):
         res = Result()
         res.evals = 0
         flt = matcher.parse(case['filter']).simplify() if case.get('filter') else matcher.always
-        drv = gdbsim.Driver(filter_text=case.get('filter'))
+        typed = case.get('via') is not None and case.get('filter')
+        if typed:
+            installed, flt = flt, matcher.always
+        drv = gdbsim.Driver(filter_text=None if typed else case.get('filter'))
         try:
             P = histgen.protocols()
             tags, sides = {}, {}
             for k, m in enumerate(case['specs']):
+                if typed and k == case.get('at', 0):
+                    word, _, sub = case['via'].partition(' ')
+                    drv.command((sub + ' ' if sub else '') + case['filter'], via=word)
+                    flt = installed
                 conn = tags.setdefault(m['conn'], len(tags))
                 decl = P[m['iface']].msg(m['name']) if m['iface'] in P and not (m['iface'] == 'wl_registry' and m['name'] == 'bind') else None
                 if conn not in sides:
@@ -316,7 +331,8 @@ class GdbMode(Stage):
             drv.close()
         res.nontrivial = len(set(case['threads'])) > 1 and len(case['specs']) >= 5
         res.label('gdb-mode')
-        res.sample = dict(filter=case.get('filter'), threads=case['threads'], lines=[wire.render(m, 'new') for m in case['specs'][:6]])
+        if typed: res.label('filter-typed-as-' + case['via'].split(' ')[0])
+        res.sample = dict(filter=case.get('filter'), via=case.get('via'), threads=case['threads'], lines=[wire.render(m, 'new') for m in case['specs'][:6]])
         return res
 
 
